@@ -4,6 +4,8 @@ package c27
 import (
 	"fmt"
 	"math/rand/v2"
+	"os"
+	"sort"
 	"strings"
 	"time"
 
@@ -48,6 +50,42 @@ func init() {
 }
 
 var fullParser = parser.NewParser(pqgen.Features{Experimental: true, DurationExpr: true, Extended: true, Fill: true}.Options())
+
+// subqueryAlignedTimes lists the step-aligned evaluation times of the query's subqueries that fall
+// into [start, end] and are not on the outer step grid (at most 300).
+func subqueryAlignedTimes(qs string, defaultStepMs, start, end, step int64) []int64 {
+	e, err := fullParser.ParseExpr(qs)
+	if err != nil {
+		return nil
+	}
+	steps := map[int64]bool{}
+	parser.Inspect(e, func(n parser.Node, _ []parser.Node) error {
+		if sq, ok := n.(*parser.SubqueryExpr); ok {
+			st := sq.Step.Milliseconds()
+			if st <= 0 {
+				st = defaultStepMs
+			}
+			if st > 0 {
+				steps[st] = true
+			}
+		}
+		return nil
+	})
+	var out []int64
+	for st := range steps {
+		first := start - start%st
+		if first < start {
+			first += st
+		}
+		for ta := first; ta <= end && len(out) < 300; ta += st {
+			if (ta-start)%step != 0 {
+				out = append(out, ta)
+			}
+		}
+	}
+	sort.Slice(out, func(i, j int) bool { return out[i] < out[j] })
+	return out
+}
 
 // absentWithRepeatedLabel reports whether the query applies absent()/absent_over_time() to a
 // selector that has an equality matcher and a further matcher on the same label name: the labels
@@ -278,6 +316,34 @@ func run(c *core.Case) {
 							kind = "range-fails-on-name-collision-across-steps-without-delayed-name-removal"
 						}
 						eng2.Close()
+					}
+				}
+				if strings.HasPrefix(kind, "range-fails-instants-ok") {
+					// Known mechanism: a range query evaluates every subquery once over its whole span, at all
+					// step-aligned times, including times that lie in no outer step's window; an error of the
+					// inner expression there fails the range query although no instant query of the step grid
+					// ever evaluates the inner expression at that time.  Predicate: the query has a subquery
+					// and the instant query at one of its aligned times inside the range query's span (not on
+					// the step grid) fails with the same error.
+					for _, ta := range subqueryAlignedTimes(qs, subqStep, start, end, step) {
+						if ir := pqgen.Instant(eng, ds.DB, qs, ta); !ir.OK() && ir.Err == rr.Err {
+							kind = "range-fails-at-subquery-step-outside-every-outer-window"
+							where += fmt.Sprintf(" [the instant query at the subquery-aligned time %d fails the same way]", ta)
+							break
+						}
+					}
+				}
+				if os.Getenv("VERIF_C27_DIAG") != "" {
+					for i := 0; i < nsteps; i++ {
+						t := start + int64(i)*step
+						ir := pqgen.Instant(eng, ds.DB, qs, t)
+						c.Logf("diag: instant t=%d ok=%v points=%v", t, ir.OK(), ir.At(t))
+						for j := i + 1; j < nsteps; j++ {
+							r2 := pqgen.Range(eng, ds.DB, qs, t, start+int64(j)*step, time.Duration(int64(j-i)*step)*time.Millisecond)
+							if !r2.OK() {
+								c.Logf("diag: two-step range %d..%d fails: %s", t, start+int64(j)*step, r2.Err)
+							}
+						}
 					}
 				}
 				c.Violatef(kind, "%s: range query fails (%s) but all %d instant queries succeed", where, rr.Err, nsteps)
